@@ -733,6 +733,10 @@ class IntegratePlanar:
         Computes the integral for a bezier curve of given control points
         """
         assert isinstance(curve, PlanarCurve)
+        if nnodes is None and curve.degree > 1:
+            return IntegratePlanar.__winding_number_bisect(
+                curve.ctrlpoints, Point2D(center), 50
+            )
         nnodes = curve.npts if nnodes is None else nnodes
         nodes = Math.closed_linspace(nnodes)
         total = 0
@@ -742,3 +746,32 @@ class IntegratePlanar:
                 pointa, pointb, center
             )
         return total
+
+    @staticmethod
+    def __winding_number_bisect(
+        ctrlpoints: Tuple[Point2D], center: Point2D, depth: int
+    ) -> float:
+        """
+        The chord between the end points subtends the same angle as the
+        bezier curve only if center is outside the box of the control points.
+        Otherwise the curve is divided at the middle (de Casteljau)
+        """
+        xvals = tuple(point[0] for point in ctrlpoints)
+        yvals = tuple(point[1] for point in ctrlpoints)
+        outside = center[0] < min(xvals) or max(xvals) < center[0]
+        outside = outside or center[1] < min(yvals) or max(yvals) < center[1]
+        if outside or depth == 0:
+            return IntegratePlanar.winding_number_linear(
+                ctrlpoints[0], ctrlpoints[-1], center
+            )
+        left, right = [], []
+        points = list(ctrlpoints)
+        while len(points):
+            left.append(points[0])
+            right.insert(0, points[-1])
+            points = [(pta + ptb) / 2 for pta, ptb in zip(points, points[1:])]
+        wind = IntegratePlanar.__winding_number_bisect(left, center, depth - 1)
+        wind += IntegratePlanar.__winding_number_bisect(
+            right, center, depth - 1
+        )
+        return wind
